@@ -634,12 +634,44 @@ def _same_arguments(
         (
             (
                 a1.name.value == a2.name.value
-                and type(a1.value) == type(a2.value)  # noqa: E721
-                and a1.value.value == a2.value.value  # type: ignore
+                and _same_value(a1.value, a2.value)
             )
             for a1, a2 in zip(s1, s2)
         )
     )
+
+
+def _same_value(value_1: _ast.Value, value_2: _ast.Value) -> bool:
+    """
+    Compare two argument values syntactically; variables, lists, objects and
+    ``null`` have no ``value`` attribute of their own.
+    """
+    if type(value_1) != type(value_2):  # noqa: E721
+        return False
+
+    if isinstance(value_1, _ast.Variable):
+        return value_1.name.value == cast(_ast.Variable, value_2).name.value
+
+    if isinstance(value_1, _ast.NullValue):
+        return True
+
+    if isinstance(value_1, _ast.ListValue):
+        values_2 = cast(_ast.ListValue, value_2).values
+        return len(value_1.values) == len(values_2) and all(
+            _same_value(v1, v2) for v1, v2 in zip(value_1.values, values_2)
+        )
+
+    if isinstance(value_1, _ast.ObjectValue):
+        fields_1 = sorted(value_1.fields, key=lambda f: f.name.value)
+        fields_2 = sorted(
+            cast(_ast.ObjectValue, value_2).fields, key=lambda f: f.name.value
+        )
+        return len(fields_1) == len(fields_2) and all(
+            f1.name.value == f2.name.value and _same_value(f1.value, f2.value)
+            for f1, f2 in zip(fields_1, fields_2)
+        )
+
+    return value_1.value == value_2.value  # type: ignore
 
 
 def _types_conflict(type_1: GraphQLType, type_2: GraphQLType) -> bool:
